@@ -16,6 +16,10 @@ pub struct Case {
     pub writers: Vec<(String, u8)>,
     pub line_filter: bool,
     pub msgs: Vec<usize>,
+    /// a second specification that replaces the first one on the running logger; the written
+    /// set is checked again ("the ACTIVE specification")
+    #[serde(default)]
+    pub second: Option<MSpec>,
 }
 
 pub struct P;
@@ -144,13 +148,15 @@ impl Property for P {
             prop::collection::btree_map(prop_oneof![Just("W1".to_string()), Just("W2".to_string()), Just("Alert".to_string())], 0u8..6, 0..3),
             prop::bool::weighted(0.2),
             prop::collection::vec(0usize..MESSAGES.len(), 2..4),
+            prop::option::weighted(0.4, mspec_strat()),
         )
-            .prop_map(|(spec, by_parse, writers, line_filter, msgs)| Case {
+            .prop_map(|(spec, by_parse, writers, line_filter, msgs, second)| Case {
                 spec,
                 by_parse,
                 writers: writers.into_iter().collect(),
                 line_filter,
                 msgs,
+                second: if line_filter { None } else { second },
             })
             .boxed()
     }
@@ -242,6 +248,37 @@ impl Property for P {
             }
             if !b.writers.is_empty() {
                 out.class("additional-writers");
+            }
+        }
+        // the specification is replaced on the running logger: the ACTIVE one decides
+        if out.fail.is_none() {
+            if let Some(second) = &case.second {
+                out.class("spec-replaced-at-run-time");
+                b.handle.set_new_spec(second.build_with_builder());
+                let t2 = grid_targets(&second.names());
+                if let Err((sig, msg)) = check_gate_and_enabled(&b, second, &t2) {
+                    out.set_fail(format!("after-replacement:{sig}"), msg);
+                } else {
+                    let before = b.primary.handed.lock().unwrap().len();
+                    let mut exp2 = Vec::new();
+                    for t in &t2 {
+                        for l in 1..=5u8 {
+                            for mi in &case.msgs {
+                                let m = MESSAGES[*mi];
+                                macro_log(lvl(l), t, m);
+                                if second.enabled(l, t) && second.text_ok(m) {
+                                    exp2.push(Got { level: l, target: t.clone(), msg: m.to_string(), ts_ns: 0 });
+                                }
+                            }
+                        }
+                    }
+                    let got2 = strip(&b.primary.handed.lock().unwrap()[before..].to_vec());
+                    if got2 != exp2 {
+                        out.set_fail("after-replacement:written-set-mismatch", format!("{}; first spec {}, active spec {}", describe_diff(&exp2, &got2), case.spec.render(), second.render()));
+                    }
+                }
+                // back to the first one for the remaining clauses
+                b.handle.set_new_spec(case.spec.build_with_builder());
             }
         }
         // brace targets that contain _Default: log() decides by the record's module path, and
